@@ -183,6 +183,12 @@ Proof.
       induction n as [|n IH]; intros j L H; [destruct j; discriminate|].
       destruct L as [|x L]; [destruct j; discriminate|]. destruct j; cbn [firstn nth_error] in *; [exact H|]. apply (IH _ _ H). }
     unfold all_rows in Hk'. cbn [matN].
-    destruct j as [|[|[|[|[|[|j]]]]]]; cbn [nth_error] in Hk'; inversion Hk'; subst; try reflexivity; try exact R1.
-    destruct j; discriminate.
+    destruct j as [|[|[|[|[|[|j]]]]]]; cbn [nth_error] in Hk'; inversion Hk'; subst; cbn [krow Nat.add].
+    + reflexivity.
+    + exact R1.
+    + reflexivity.
+    + reflexivity.
+    + reflexivity.
+    + reflexivity.
+    + destruct j; discriminate.
 Qed.
